@@ -316,6 +316,7 @@ class Net:
         self.endpoints: List[Endpoint] = []
         self.policy = policy or Policy()
         self.trace: List[Dict[str, Any]] = []        # every datagram put on the wire by a library socket
+        self.on_transmit: Optional[Callable[[Dict[str, Any]], None]] = None
         self.dead_sends: List[Dict[str, Any]] = []   # send attempts on a dead transport
         self.deliveries: List[Dict[str, Any]] = []   # every datagram_received call made
         self.escapes: List[Dict[str, Any]] = []      # exceptions that reached the event loop
@@ -354,6 +355,8 @@ class Net:
         entry = {"ctx": None if ctx is None else dict(ctx), "i": idx, "t": self.clock.ms(), "host": host.name, "sock": sock.role, "sock_ip": sock.ip, "fd": sock.fileno(),
                  "src": src, "dst": (dst_ip, dst_port), "data": data, "mcast": multicast, "closing": bool(sock.transport and sock.transport.closing)}
         self.trace.append(entry)
+        if self.on_transmit is not None:
+            self.on_transmit(entry)          # observation hook (e.g. snapshot the sender's cache at the send instant)
         if host.partitioned:
             return
         self.policy.current_is_multicast = multicast
